@@ -461,9 +461,52 @@ def run(ck, F, tier):
                 # must be the receiver of .decode(..)
                 par = [p for p in walk(b.value) if p.get("k") == "mcall" and strip(p["recv"]) is n]
                 ok = len(par) == 1 and par[0]["m"] == "decode" and (par[0].get("def") or "").endswith("LdpcDecoder::decode")
+                if not ok:
+                    ok = handed_to_decode_only(F, b, n)
                 ck.inst("Z4", "holder-use:%s#%d" % (b.path.rsplit("::", 1)[-1], n4), ok, n["sp"],
                         "%s uses its stored decoder %s" % (b.path, "only as receiver of LdpcDecoder::decode" if ok else "in another way"))
     ck.floor("Z4", "uses of a stored Box<dyn LdpcDecoder>", n4, 2)
+
+
+def handed_to_decode_only(F, body, node, depth=0):
+    """the stored decoder (possibly through as_mut()/&mut/deref) is passed to a private function that uses that parameter only as the
+    receiver of LdpcDecoder::decode (or passes it on in the same way)"""
+    VIEW = ("as_mut", "as_ref", "deref_mut", "deref", "borrow_mut")
+
+    def peel_up(x):
+        # the expression that wraps node through view calls / borrows
+        cur = x
+        changed = True
+        while changed:
+            changed = False
+            for p in walk(body.value):
+                if p.get("k") == "mcall" and p["m"] in VIEW and strip(p["recv"]) is cur and not p["args"]:
+                    cur, changed = p, True
+                elif p.get("k") in ("ref", "un") and p.get("e") is not None and strip(p["e"]) is cur:
+                    cur, changed = p, True
+        return cur
+    top = peel_up(node)
+    for c in walk(body.value):
+        if c.get("k") in ("call", "mcall"):
+            args = c.get("args", [])
+            for i, a in enumerate(args):
+                if strip(a) is top or a is top:
+                    hb = F.private_helper(callee(c) or "", "")
+                    if hb is None or depth > 2:
+                        return False
+                    pi = i + (1 if c.get("k") == "mcall" else 0)
+                    if pi >= len(hb.params) or hb.params[pi].get("k") != "bind":
+                        return False
+                    pname = hb.params[pi]["name"]
+                    uses = [x for x in walk(hb.value) if x.get("k") == "path" and x.get("res") == "local" and x.get("name") == pname]
+                    for u in uses:
+                        recv_of = [m for m in walk(hb.value) if m.get("k") == "mcall" and strip(m["recv"]) is u]
+                        if len(recv_of) == 1 and recv_of[0]["m"] == "decode" and (recv_of[0].get("def") or "").endswith("LdpcDecoder::decode"):
+                            continue
+                        if not handed_to_decode_only(F, hb, u, depth + 1):
+                            return False
+                    return bool(uses)
+    return False
 
 
 def scratch_discipline(body, field):
